@@ -997,6 +997,16 @@ def make_cases(ctx):
         params, prows = pr()
         g = Gen(rng, params=params)
         add("grid", g.prim1("y"), params, prows[:1], n=rng.choice([1, 2, 3, 4, 7, 12, 40, 100, 257]), m=rng.choice([2, 3, 4, 5, 8, 16]))
+    # 8b. evaluated domains D(t = v): several copies from one parent, earlier copies sampled after later ones were made
+    for i in range(ctx.scale(16, 160)):
+        node = two_var_shape(rng)
+        k = 1       # the generator's lambdas stack columns of the evaluated value (1 row) and of D: one row of D per evaluated copy
+        rowsD = [{"D": [Fr(rng.randint(0, 16), 16)]} for _ in range(k)]
+        tv = rng.sample([Fr(j, 8) for j in range(0, 9)], rng.choice([2, 3]))
+        order = rng.choice([[0, 1, 0], [0], [1, 0, "parent"], [0, "parent", 1], list(range(len(tv))) + [0]])
+        order = [w for w in order if w == "parent" or w < len(tv)]
+        add("evalhist", node, ["D"], rowsD, tvals=[str(v) for v in tv], order=order, N=ctx.scale(30000, 80000), n_small=rng.choice([2, 5]),
+            api=rng.choice(["dom.n", "smp.n"]))
     # 9. grids of every primitive, primitive boundary and the polygon: extreme aspect ratios / sizes, n from 1 to 1000
     for i in range(ctx.scale(70, 700)):
         n = rng.choice([1, 2, 3, 5, 10, 30, 100, 100, 400, 1000])
@@ -1062,6 +1072,16 @@ def sample_big(tp, dom, node, case, api, N):
         res = common.call_with_timeout(TIMEOUT, lambda: dom.sample_random_uniform(d=N / max(vol, 1e-9), params=params))
         return [coords_of(node, res, len(res))]
     params = mk_params(tp, names, prows)
+    _fp = params.as_tensor.clone() if len(params) else None          # the user's parameter rows, fingerprinted by value
+    try:
+        return _sample_big_inner(tp, dom, node, case, api, N, params, k, S, out)
+    finally:
+        if _fp is not None and not torch.equal(_fp, params.as_tensor):
+            raise RowCount(f"the sampling call changed the parameter rows handed to it: {_fp.tolist()} became {params.as_tensor.tolist()}")
+
+
+def _sample_big_inner(tp, dom, node, case, api, N, params, k, S, out):
+    import torch
     if api == "smp.f":
         col, thr, sense = case["filter"]
         var = nm(node.vars()[0])
@@ -1110,6 +1130,7 @@ def desc(case):
 
 
 def inp_of(case):
+    case = case.get("_orig") or case          # judged views of a case (other parameter rows) report the case they belong to
     return dict({k: v for k, v in case.items() if not k.startswith("_")}, expression=desc(case))
 
 
@@ -2105,6 +2126,99 @@ def run_grid(tp, rep, case, lines, posts):
     posts.append(post)
 
 
+def two_var_shape(rng):
+    """a shape one of whose parameters is ONE function of the two outside variables t and D (so that D(t = value) is a PARTIAL
+    evaluation of that function), optionally under a translation that depends on both as well"""
+    def both(base, spread=1):
+        a_, b_ = dy(rng, -spread, spread, 4) or Fr(1, 4), dy(rng, -spread, spread, 4) or Fr(-1, 4)
+        return ("+", ("+", geomgen.c(base), ("*", geomgen.c(a_), geomgen.v("t"))), ("*", geomgen.c(b_), geomgen.v("D")))
+    kind = rng.choice(["circle", "interval", "par", "tri", "sphere"])
+    if kind == "circle":
+        node = Node("circle", "x", [PF([both(dy(rng, -2, 2)), both(dy(rng, -2, 2))]), PF([("+", geomgen.c(dy(rng, 0.5, 2)), ("*", geomgen.c(Fr(1, 4)), geomgen.v("t")))])])
+    elif kind == "sphere":
+        node = Node("sphere", "z", [PF([both(dy(rng, -1, 1)), geomgen.c(dy(rng, -1, 1)), both(dy(rng, -1, 1))]), PF([geomgen.c(dy(rng, 0.5, 2))])])
+    elif kind == "interval":
+        lo = both(dy(rng, -2, 1))
+        node = Node("interval", "y", [PF([lo]), PF([("+", lo, geomgen.c(dy(rng, 0.5, 3)))])])
+    else:
+        base = Gen(rng, params=[]).prim2("x")
+        while base.kind != kind:
+            base = Gen(rng, params=[]).prim2("x")
+        sh = [both(0), both(0)]
+        node = Node(kind, "x", [PF([("+", p.terms[0], sh[0]), ("+", p.terms[1], sh[1])]) for p in base.pfs])
+    if rng.random() < 0.3:
+        var = node.var
+        node = Node("translate", var, [PF([both(dy(rng, -1, 1)) for _ in range(DIM[var])])], [node])
+    if rng.random() < 0.3:
+        node = Node("bdry", None, [], [node])
+    return node
+
+
+def run_evalhist(tp, rep, case, lines, posts):
+    """object history of EVALUATED domains: several copies D(t = v_i) are made from ONE parent first; then every copy — earlier
+    ones after later ones were created — and finally the parent itself is sampled and judged against the law at ITS OWN values
+    (natural-partition chi-square with the full parameter row, tape correspondence `prim` at the row  rho ++ {t: v_i};
+    Props/C11.lean: primSample_peval, primSample_peval_siblings)"""
+    import torch
+    node = geomgen.from_json(case["dom"])
+    rowsD = prows_of(case)                      # rows of the remaining parameter D
+    tvals = [Fr(v) for v in case["tvals"]]
+    parent = build_tp(node, tp)
+    copies = [parent(**{nm("t"): torch.tensor([[float(v)]])}) for v in tvals]   # all copies are made before any of them is used
+    dt = node.tokens()
+    for step, which in enumerate(case["order"]):
+        if which == "parent":
+            dom, pnames = parent, ["t", "D"]
+            full = [dict(r, t=[tvals[0]]) for r in rowsD]
+            sub_rows = full
+            who = "the parent (sampled with explicit rows after its evaluated copies were made and used)"
+        else:
+            dom, pnames = copies[which], ["D"]
+            full = [dict(r, t=[tvals[which]]) for r in rowsD]
+            sub_rows = rowsD
+            who = (f"the evaluated copy D(t={float(tvals[which])}) (copy {which + 1} of {len(copies)}, sampled as step {step + 1} of the "
+                   f"history {case['order']}; the other copies were made at t={[float(v) for j, v in enumerate(tvals) if j != which]})")
+        sub = dict(case, params=pnames, prows=prows_json(sub_rows))
+        judge = dict(case, params=["t", "D"], prows=prows_json(full), _orig=case)
+        # ---- tape correspondence on a small call
+        n = case["n_small"]
+        params = mk_params(tp, pnames, sub_rows)
+        torch.manual_seed(case["seed"] + step)
+        with Tape() as tape:
+            res = common.call_with_timeout(TIMEOUT, lambda: dom.sample_random_uniform(n=n, params=params))
+        X = coords_of(node, res, len(res))
+        kk = len(sub_rows)
+        if len(X) != n * kk:
+            rep.fail(f"{who}: {len(X)} rows returned for n={n} and {kk} parameter rows", inp_of(case))
+            return
+        draws = tape.of("rand")
+        out = dict(X=X, reqs=[], draws=[])
+        for i in range(kk):
+            for j in range(n):
+                r = []
+                for T in draws:
+                    if tuple(T.shape[:2]) != (kk, n):
+                        out["shape"] = [tuple(T.shape) for T in draws]
+                        break
+                    r += [float(x) for x in T[i, j].reshape(-1).tolist()]
+                out["reqs"].append(f"prim {dt} {env_tokens(full[i])} {common.lst(r, common.q)}")
+                out["draws"].append((full[i], r))
+        prim_like = node.kind in PRIMS or (node.kind == "bdry" and node.kids[0].kind in PRIMS)     # `prim` models primitives and their boundaries
+        if "shape" not in out and prim_like:
+            a0 = len(lines)
+            lines += out["reqs"]
+            posts.append((lambda *replies, out=out, judge=judge: judge_tape(rep, judge, out, list(replies), _EVAL_RETRY), len(lines) - a0))
+        # ---- law on a big sample, judged at the copy's own values
+        torch.manual_seed(case["seed"] + 100 + step)
+        Xs = sample_big(tp, dom, node, sub, case["api"], case["N"])
+        rep.count("evalhist:" + ("parent" if which == "parent" else "earlier-copy-after-later" if which < max([w for w in case["order"][:step] if w != "parent"] + [-1]) or which < len(copies) - 1 else "latest-copy"))
+        if law_tests(rep, judge, node, Xs, tag=who + ": "):
+            return
+
+
+_EVAL_RETRY = []
+
+
 def stat_bound(m, p):
     """Bernstein bound (level ALPHA) for the deviation of a Binomial(m, p) count from m p: the random top-up points of a grid"""
     if m <= 0:
@@ -2407,6 +2521,8 @@ def run(ctx, rep, cases=None):
                 run_gauss(tp, rep, cs, my_lines, posts)
             elif kind == "grid":
                 run_grid(tp, rep, cs, my_lines, posts)
+            elif kind == "evalhist":
+                run_evalhist(tp, rep, cs, my_lines, posts)
             elif kind == "gridx":
                 run_gridx(tp, rep, cs)
             elif kind == "poly":
@@ -2447,6 +2563,13 @@ def run(ctx, rep, cases=None):
                 f(*rs[pos:pos + k]); pos += k
             else:
                 p(rs[pos]); pos += 1
+    for job in _EVAL_RETRY:            # evaluated copies: a tape mismatch is reported as it is (the law test of the same step decides)
+        case_, out_ = job["case"], job["out"]
+        if job["why"] == "values":
+            r_ = job["row"]
+            rep.disagree("tape correspondence of an evaluated domain: the copy D(t=v) must return the parent's point at the row rho ++ {t: v}",
+                         dict(inp_of(case_), request=out_["reqs"][r_], row=r_), [float(x) for x in out_["X"][r_]], job["model"])
+    del _EVAL_RETRY[:]
     if tape_retry:
         resolve_tape_retries(tp, rep, tape_retry)
 
